@@ -102,10 +102,15 @@ const (
 	failReturn
 	failHostCall    // boom(k): a Go function that panics, called directly in the body
 	failCloseClosed // c = mkch(); close(c): the Go runtime refuses (enumerated with a failing deferred callee only)
+	// func() { break }() / func() { continue }(): a loop signal with no loop of its
+	// own invocation is a runtime error of the CALL; the loops of the callers are
+	// not addressed by it (enumerated under wrapper tuples that contain a loop)
+	failStrayBreak
+	failStrayContinue
 	numFail
 )
 
-var failNames = [...]string{"none", "throw", "undefined-name", "return", "failing-host-call", "close-closed-channel"}
+var failNames = [...]string{"none", "throw", "undefined-name", "return", "failing-host-call", "close-closed-channel", "stray-break-in-callee", "stray-continue-in-callee"}
 
 const failTag = 1
 
@@ -119,11 +124,25 @@ func (g *gen) failStmt(kind int) []ir.Stmt {
 		return []ir.Stmt{ir.Return{Vals: []ir.Expr{ir.I(5)}, Tag: failTag}}
 	case failHostCall:
 		return []ir.Stmt{ir.ExprStmt{X: ir.Boom{ID: g.id()}, Tag: failTag}}
+	case failStrayBreak:
+		return []ir.Stmt{ir.ExprStmt{X: ir.Call{Fn: &ir.FuncLit{Body: []ir.Stmt{ir.Break{}}}}, Tag: failTag}}
+	case failStrayContinue:
+		return []ir.Stmt{ir.ExprStmt{X: ir.Call{Fn: &ir.FuncLit{Body: []ir.Stmt{ir.Continue{}}}}, Tag: failTag}}
 	case failCloseClosed:
 		c := fmt.Sprintf("c%d", g.id())
 		return []ir.Stmt{ir.Set(c, ir.ChanOf{}), ir.Close{X: ir.Var{Name: c}, Tag: failTag}}
 	}
 	panic("bad failure kind")
+}
+
+// hasLoop reports whether a wrapper tuple contains a loop.
+func hasLoop(ws []int) bool {
+	for _, w := range ws {
+		if n := wrappers[w].name; n == "forin" || n == "loop" {
+			return true
+		}
+	}
+	return false
 }
 
 // failingDeferred reports whether the defer kinds contain a deferred callee
